@@ -631,11 +631,13 @@ def _pred_scaled(case, out):
             if "exc" in s: bad.append("%s: raised %s" % (tag, s["exc"])); continue
             ret = [[_fr(h) for h in r] for r in s["ret"]]
             nmat, nloc, nsc = rd(s)
-            raw = [[None if v is None else v * sc[j] + loc[j] for j, v in enumerate(r)] for r in mat]
+            def up(v, j): return None if v is None or sc[j] is None or loc[j] is None else v * sc[j] + loc[j]
+            def dn(v, j): return None if v is None or sc[j] is None or loc[j] is None else (v - loc[j]) / sc[j]
+            raw = [[up(v, j) for j, v in enumerate(r)] for r in mat]
             if op["op"] in ("transform", "untransform"):
                 m = [[_F(v) for v in r] for r in op["m"]]
-                if op["op"] == "transform": want = [[None if v is None else (v - loc[j]) / sc[j] for j, v in enumerate(r)] for r in m]
-                else: want = [[None if v is None else v * sc[j] + loc[j] for j, v in enumerate(r)] for r in m]
+                if op["op"] == "transform": want = [[dn(v, j) for j, v in enumerate(r)] for r in m]
+                else: want = [[up(v, j) for j, v in enumerate(r)] for r in m]
                 if not closem(ret, want): bad.append("%s: wrong values" % tag)
                 if op["copy"] and not s["arg_unchanged"]: bad.append("%s: copy=True modified the argument" % tag)
                 if op["copy"] and s["ret_is_arg"]: bad.append("%s: copy=True returned the argument" % tag)
@@ -827,7 +829,7 @@ def _emit_scaled(case, out):
                 mat = [[_fr(h) for h in r] for r in prev["mat"]]; loc = [_fr(h) for h in prev["loc"]]; sc = [_fr(h) for h in prev["scale"]]
                 ps = []
                 for j in range(t):
-                    vals = [r[j] * sc[j] + loc[j] for r in mat if r[j] is not None]
+                    vals = [r[j] * sc[j] + loc[j] for r in mat if r[j] is not None and sc[j] is not None and loc[j] is not None]
                     if not vals: ps.append((None, None)); continue
                     mean = sum(vals) / len(vals); var = sum((v - mean) ** 2 for v in vals) / len(vals)
                     ps.append((float(mean), 1.0 if var == 0 else math.sqrt(float(var))))
